@@ -18,6 +18,27 @@ def main(tier, seed):
     profcheck.run_scenarios(rep, "switchcontexts", scenarios.fiber_switch_context_scenarios(), bins, PROP)
     # fibers whose code lives in another module than their caller's: after every switch each side is back in its own module
     profcheck.run_scenarios(rep, "crossmodule", [p for p in scenarios.cross_module_scenarios() if "fiber" in p[0]], bins, PROP)
+    # every operation on a fiber / on the Fiber class with every kind and number of arguments (Natives.tla): the outcome, and that a
+    # rejected call or yield leaves the caller's variables untouched
+    from checks import c02
+    cases = []
+    nstates = 0
+    for form in ("fiberops",):
+        cs, n_ = c02.tlc_cases(rep, form, tier)
+        nstates += n_
+        cases += [c for c in cs if c["r"]["c"] != "trigger"]
+    for c in list(cases):
+        if c["f"] == "invoke" and len(c["ops"]) == 2 and c["name"] not in ("call", "yield", "new"):     # stateless operations only
+            cases.append(dict(c, repeat=True))          # the same call twice on the same fiber object
+    save = c02.PROP
+    c02.PROP = PROP
+    try:
+        nn, _k = c02.run_natives(rep, bins, cases)
+    finally:
+        c02.PROP = save
+    rep.coverage["fiber_operation_cases"] = nn
+    rep.coverage["states"] += nstates
+    rep.coverage["traces_validated_against_impl"] += nn
     rep.coverage["exhaustive"] = False
     rep.sample({"kind": "fiber scenario", "source": __import__("yprog").program_src(progs[-1][1])})
     rep.coverage["rule"] = ("every one-fiber program with a body of <= 2 actions (10 action kinds) under two call schedules, plus seeded "
